@@ -134,6 +134,7 @@ class Anchor:
 class Scenario:
     noise = None       # "before" | "after": every relationship part also lists relationships of all the OTHER standard kinds of its source
                        # part (a worksheet: vmlDrawing, comments, hyperlink ...), before / after the picture relationships
+    manifest = None    # ODF: None = empty manifest | "typed" | "untyped" (pictures listed with media-type="") | "absent"
     strict = False     # relationship types of the Strict namespace (purl.oclc.org/ooxml) instead of the Transitional one
 
     def __init__(self, fmt, units, media, note=""):
@@ -146,6 +147,8 @@ class Scenario:
             d["relationships_of_other_kinds"] = self.noise
         if self.strict:
             d["relationship_namespace"] = "strict"
+        if self.manifest:
+            d["odf_manifest"] = self.manifest
         return d
 
 
@@ -323,6 +326,18 @@ def build_odf(sc):
         body = "<office:spreadsheet>" + "".join(tabs) + "</office:spreadsheet>"
     files = {"content.xml": f'<?xml version="1.0"?><office:document-content {ODFNS}><office:body>{body}</office:body></office:document-content>',
              "META-INF/manifest.xml": '<?xml version="1.0"?><manifest:manifest xmlns:manifest="urn:oasis:names:tc:opendocument:xmlns:manifest:1.0"/>'}
+    if sc.manifest in ("typed", "untyped"):
+        # the manifest lists every member: "typed" with its media type (LibreOffice), "untyped" with media-type="" for the pictures
+        # (OpenOffice.org and several converters write the Pictures/ entries that way)
+        rows = [f'<manifest:file-entry manifest:full-path="/" manifest:media-type="{ODF_MIME[fmt]}"/>',
+                '<manifest:file-entry manifest:full-path="content.xml" manifest:media-type="text/xml"/>']
+        for part in sc.media:
+            mt = CT.get(part.rsplit(".", 1)[-1].lower(), "") if sc.manifest == "typed" else ""
+            rows.append(f'<manifest:file-entry manifest:full-path="{part}" manifest:media-type="{mt}"/>')
+        files["META-INF/manifest.xml"] = ('<?xml version="1.0"?><manifest:manifest xmlns:manifest="urn:oasis:names:tc:opendocument:xmlns:manifest:1.0">'
+                                          + "".join(rows) + "</manifest:manifest>")
+    elif sc.manifest == "absent":
+        del files["META-INF/manifest.xml"]
     files.update(sc.media)
     return zip_bytes(files, first=("mimetype", ODF_MIME[fmt]))
 
@@ -889,6 +904,13 @@ def witness(kind, fmt):
         if fmt == "pdf":
             return first_failure([pdf_scenario([[(30, 20)], [(31, 21), (32, 22)]])], ("numbering",))
         return first_failure([simple(fmt, ["relative"], n_units=2, per_unit=2)], ("numbering",))
+    if kind == "shared-media":
+        # formats that report an embedded member once however many frames show it: the same picture in two / three plain frames, alone and
+        # between other pictures -> one image per embedded file, numbered 1..n
+        out = []
+        for units in ([[Anchor(f"{md}/a.png"), Anchor(f"{md}/a.png")]], [[Anchor(f"{md}/a.png"), Anchor(f"{md}/b.gif"), Anchor(f"{md}/a.png"), Anchor(f"{md}/a.png")]]):
+            out.append(Scenario(fmt, units if fmt != "odg" else [units[0][:2], units[0][2:]], {f"{md}/a.png": A, f"{md}/b.gif": B}, note="one embedded picture shown by several frames"))
+        return first_failure(out, ("resolution", "bytes", "numbering"), dedup=True)
     if kind == "gap-missing":
         sc = Scenario(fmt, [[Anchor(f"{md}/m.png", "relative", "missing"), Anchor(f"{md}/a.png")]], {f"{md}/a.png": A})
         return first_failure([sc], ("numbering",))
@@ -1142,7 +1164,10 @@ def search(ob, wit=None):
             if r:
                 return r
         # gaps / double numbers inside one unit (numbering across units is the obligation counter-starts-at-zero-once-per-document)
-        return sweep(fmt, ("numbering",), max_units=1)
+        r = sweep(fmt, ("numbering",), max_units=1)
+        if r is None and fmt in ("odt", "odg"):
+            r = witness("shared-media", fmt)
+        return r
     if "/numbering#" in ob:
         # the number an image carries: documents whose pictures are all present, one unit (gaps and restarts have their own obligations)
         return sweep(fmt, ("numbering",), max_units=1, kinds=("embedded",))
@@ -1171,6 +1196,16 @@ def search(ob, wit=None):
         if r is None and "content-type" in asp:
             # part names whose extension is not all lower case (IMG_0002.JPG): the content type is that of the lower-cased extension
             r = sweep(fmt, asp, seeds=(0,), count=15, ext_case=True)
+        if r is None and fmt in ODF_MIME:
+            # what META-INF/manifest.xml says about the pictures (typed, listed without a type, no manifest) changes nothing
+            for mf in ("untyped", "typed", "absent"):
+                scs = [simple(fmt, ["relative"], n_units=1, per_unit=2, ext="jpg")] + list(gen_scenarios(fmt, 12, 8, styles=("relative",)))
+                for sc in scs:
+                    sc.manifest = mf
+                    sc.note += f" manifest={mf}"
+                r = first_failure(scs, asp, dedup=fmt in ("odt", "odg"))
+                if r:
+                    break
         return r
     if "data_types.py" in ob:
         cls = ob.split("::")[1].split(".")[0] if "::" in ob else None
